@@ -89,7 +89,8 @@ func HarnessC07Recovery() {
 				}
 			}
 			if len(targets) > 0 {
-				w.zzSkip(0, targets...)
+				// a skip annotation revokes; a plain comment annotation does not
+				w.zzAnnotate(0, verif.ConcreteBool(verif.Bool(p+".isskip")), targets...)
 			}
 		}
 	}
@@ -116,5 +117,57 @@ func HarnessC07Recovery() {
 	}
 	if recovered && err == nil {
 		verif.Reach("accepted-with-revocation")
+	}
+}
+
+// HarnessC07Deferred: a fixed recovery skeleton (valid push, violating push
+// that is revoked, fix restoring the first tree, one more push) with a policy
+// update that de-authorises key0 placed at any of the four gaps, and symbolic
+// signers for the fix and the last push: entries for gittuf's own namespaces
+// met while searching for the fix must still be processed afterwards.
+func HarnessC07Deferred() {
+	w := zzNewWorld()
+	spec := zzBasePolicy([]int{0, 1}, nil)
+	zzMust(w.zzStageAndApply(spec, w.zzBuildState(spec, []int{0}, []int{0}), 0))
+	update := func() {
+		next := zzBasePolicy([]int{1}, nil)
+		next.rootVersion, next.targetsVer = 2, 2
+		zzMust(w.zzStageAndApply(next, w.zzBuildState(next, []int{0}, []int{0}), 0))
+	}
+	at := verif.Concrete(verif.Choice("update.at", 5)) // 4 = no update
+	w.zzPush(zzMain, 0, 1, false)
+	if at == 0 {
+		update()
+	}
+	w.zzPush(zzMain, 2, 2, false) // violation: key2 is never trusted for main
+	bad := len(w.hist) - 1
+	if at == 1 {
+		update()
+	}
+	if verif.ConcreteBool(verif.Bool("revoked")) {
+		w.zzSkip(1, bad)
+	}
+	if at == 2 {
+		update()
+	}
+	w.zzPush(zzMain, verif.Choice("fix.signer", 3), 1+verif.Concrete(verif.Choice("fix.tree", 2)), false)
+	if at == 3 {
+		update()
+	}
+	w.zzPush(zzMain, verif.Choice("last.signer", 3), 3, false)
+
+	var pushes []*zzEvent
+	for k := range w.hist {
+		if w.hist[k].kind == "push" && w.hist[k].ref == zzMain {
+			pushes = append(pushes, &w.hist[k])
+		}
+	}
+	_, err := zzVerifyFull(w, zzMain)
+	want := zz7Accept(w, pushes)
+	verif.Assert((err == nil) == want, "verdict-matches-recovery-rules")
+	if err == nil {
+		verif.Reach("accepted")
+	} else {
+		verif.Reach("rejected")
 	}
 }
